@@ -30,7 +30,12 @@ type Choice struct {
 	Extras       int      `json:"extras"` // bit mask of optional blocks: smtp mailOn errorMail infoMail misc preconditions tags-list stepOptions
 	LogDir       bool     `json:"logDir"`
 	Exec         string   `json:"exec,omitempty"` // executor type used for kinds 3/4 ("" = http/jq/mail rotation)
+	Signal       string   `json:"signal,omitempty"` // signalOnStop of the first step when the step-options block is on ("" = SIGINT); set by checks, not by GenChoice
 }
+
+// SignalNames: canonical names, names a lenient look-up would accept (case,
+// missing prefix, blanks, numbers) and names that are no signal at all.
+var SignalNames = []string{"SIGTERM", "SIGINT", "SIGHUP", "SIGKILL", "SIGUSR1", "term", "sigint", "TERM", "SIGHUP ", " SIGTERM", "Sigkill", "15", "INT", "kill", "SIGNOPE", "", "SIG", "sigterm\n"}
 
 // ValFn maps (field path, default value) to the value to emit for a
 // string-valued field.
@@ -161,7 +166,11 @@ func step(c Choice, val ValFn, path string, name string, kind int, deps []string
 		m = append(m, kv("retryPolicy", M{kv("limit", 2), kv("intervalSec", 0)}))
 		m = append(m, kv("repeatPolicy", M{kv("repeat", false), kv("intervalSec", 1)}))
 		m = append(m, kv("mailOnError", false))
-		m = append(m, kv("signalOnStop", val(path+".signalOnStop", "SIGINT")))
+		sig := "SIGINT"
+		if c.Signal != "" {
+			sig = c.Signal
+		}
+		m = append(m, kv("signalOnStop", val(path+".signalOnStop", sig)))
 		m = append(m, kv("preconditions", []any{M{kv("condition", val(path+".preconditions[0].condition", "$HOME")), kv("expected", val(path+".preconditions[0].expected", "re:.*"))}}))
 		m = append(m, kv("env", val(path+".env", "STEP_ENV=1")))
 	}
